@@ -2,5 +2,9 @@
 EXTENDS Lexer
 ASSUME PrintT(<<"LEXER", Cardinality(All), Cardinality(Disagree)>>)
 ASSUME PrintT(<<"DISAGREE", IF Disagree = {} THEN <<>> ELSE CHOOSE w \in Disagree : \A v \in Disagree : Len(w) <= Len(v)>>)
+ASSUME PrintT(<<"UNFAITHFUL", IF Unfaithful = {} THEN <<>> ELSE CHOOSE w \in Unfaithful : \A v \in Unfaithful : Len(w) <= Len(v)>>)
+ASSUME PrintT(<<"WITNESSES", WitnessesOK>>)
 ASSUME MechanismIsTheLanguage
+ASSUME WitnessesOK
+ASSUME SplicesAreSubtexts
 =============================================================================
